@@ -687,12 +687,12 @@ theorem runAllD_bound [BEq δ] [Inhabited α] (c : Cfg α δ) (d : Disk α) (ss 
       · exact h
       · exact ih { c with stored := hs } d o h r hr
 
-/-! ### undocumented errors need a stale handle or a seek fault inside `iter_pieces` -/
+/-! ### undocumented errors need a stale handle -/
 
 /-- the documented outcomes: ValueError, VerifyFileSizeError, ReadError -/
 def Err.documented : Err → Bool
   | .value | .size | .readNoent | .readOther => true
-  | .assertion | .osError | .internal => false
+  | .assertion | .internal => false
 
 /-- the number of bytes the loop of `get_piece` collects when every relevant file has its recorded
     size (a function of the torrent only) -/
@@ -832,150 +832,130 @@ theorem specOut_documented [BEq δ] [Inhabited α] (c : Cfg α δ) (hg : GeomCon
   | close => simp [specOut] at h
   | ctxExit => simp [specOut] at h
 
-/-! #### a raw OSError only escapes from a seek fault inside `iter_pieces` -/
+/-! #### a fault surfaces as ReadError, or the operation does not get to it -/
 
-theorem iterStep_io [Inhabited α] (c : Cfg α δ) (d : Disk α) (base : Nat) (fault : Option Fault)
-    (hf : ∀ f, fault = some f → f.seek = false) (k : Option Nat) (s : ISt α) (j : Nat)
-    (h : s.io ≠ some .osError) : (iterStep c d base fault k s j).io ≠ some .osError := by
-  unfold iterStep
-  split
-  · exact h
-  · simp only
-    split
-    · exact h
-    · split
-      · split
-        · rename_i isSeek hfa
-          have : isSeek = false := by
-            unfold faultAt at hfa
-            cases hfault : fault with
-            | none => simp [hfault] at hfa
-            | some f =>
-              simp only [hfault] at hfa
-              split at hfa
-              · injection hfa with hfa; rw [← hfa]; exact hf f hfault
-              · simp at hfa
-          simp [this]
-        · exact h
-      · exact h
-
-theorem foldl_iterStep_io [Inhabited α] (c : Cfg α δ) (d : Disk α) (base : Nat) (fault : Option Fault)
-    (hf : ∀ f, fault = some f → f.seek = false) (k : Option Nat) (js : List Nat) (s : ISt α)
-    (h : s.io ≠ some .osError) : (js.foldl (iterStep c d base fault k) s).io ≠ some .osError := by
-  induction js generalizing s with
-  | nil => exact h
-  | cons j js ih => exact ih _ (iterStep_io c d base fault hf k s j h)
-
-theorem getPieceLoop_no_osError (c : Cfg α δ) (d : Disk α) (base : Nat) (fault : Option Fault)
-    (rel : List Nat) (seekTo n : Nat) (piece : List α) (o : Obj) :
-    (getPieceLoop c d base fault rel seekTo n piece o).1 ≠ .error .osError := by
+theorem getPieceLoop_fault (c : Cfg α δ) (d : Disk α) (base : Nat) (f : Fault) (rel : List Nat)
+    (seekTo n : Nat) (piece : List α) (o : Obj) :
+    (getPieceLoop c d base (some f) rel seekTo n piece o).1 = .error .readOther ∨
+      getPieceLoop c d base (some f) rel seekTo n piece o = getPieceLoop c d base none rel seekTo n piece o := by
   induction rel generalizing seekTo n piece o with
-  | nil => simp [getPieceLoop]
+  | nil => exact Or.inr rfl
   | cons j js ih =>
     unfold getPieceLoop
     simp only
     split
-    · rename_i e he
-      unfold getOpenFile at he
-      split at he
-      · simp at he
-      · simp only at he
-        cases ho : openPath d (base + j) with
-        | ok i => simp [ho] at he
-        | error e' =>
-          simp only [ho] at he
-          simp only [openPath] at ho
-          intro hcontra
-          injection hcontra with hcontra
-          subst hcontra
-          injection he with he
-          subst he
-          split at ho <;> simp at ho
+    · exact Or.inr rfl
     · split
-      · simp
-      · split
+      · exact Or.inr rfl
+      · have hn : (faultAt (none : Option Fault) j).isSome = false := rfl
+        rw [hn]
+        cases hf : (faultAt (some f) j).isSome
+        · simp only [Bool.false_eq_true, ↓reduceIte]
+          exact ih _ _ _ _
         · simp
-        · exact ih _ _ _ _
 
-theorem getPiece_no_osError (c : Cfg α δ) (hg : ∀ n, c.geom n ≠ .error .osError) (d : Disk α) (base : Nat)
-    (fault : Option Fault) (i : Int) (o : Obj) : (getPiece c d base fault i o).1 ≠ .error .osError := by
+theorem getPiece_fault (c : Cfg α δ) (d : Disk α) (base : Nat) (f : Fault) (i : Int) (o : Obj) :
+    (getPiece c d base (some f) i o).1 = .error .readOther ∨
+      getPiece c d base (some f) i o = getPiece c d base none i o := by
   unfold getPiece
   simp only
   split
-  · simp
-  · cases hgi : c.geom i.toNat with
-    | error e =>
-      simp only
-      intro h
-      injection h with h
-      exact hg _ (h ▸ hgi)
-    | ok r =>
-      obtain ⟨rel, seekTo⟩ := r
-      simp only
-      have := getPieceLoop_no_osError c d base fault rel seekTo c.L [] o
-      split
-      · rename_i e he
-        intro h
-        injection h with h
-        exact this (h ▸ he)
-      · split <;> simp
+  · exact Or.inr rfl
+  · split
+    · exact Or.inr rfl
+    · rename_i rel seekTo _
+      rcases getPieceLoop_fault c d base f rel seekTo c.L [] o with h | h
+      · left; simp [h]
+      · right; rw [h]
 
-/-- only `iter_pieces` hit by a SEEK fault answers with a raw OSError -/
-theorem run_no_osError [BEq δ] [Inhabited α] (c : Cfg α δ) (hg : ∀ n, c.geom n ≠ .error .osError)
-    (d : Disk α) (arg : Option Nat) (fault : Option Fault) (op : Handles.Op) (o : Obj)
-    (hf : (∀ f, fault = some f → f.seek = false) ∨ (op ≠ .iterFull ∧ ∀ k, op ≠ .iterAbandon k)) :
-    (run c d arg fault op o).out ≠ .err .osError := by
-  have hiter : ∀ k, (∀ f, fault = some f → f.seek = false) →
-      (iterRun c d (c.base arg) fault k o).1 ≠ (.err .osError : Out α δ) := by
-    intro k hf'
-    have := foldl_iterStep_io c d (c.base arg) fault hf' k (List.range c.sizes.length) { obj := o } (by simp)
-    simp only [iterRun]
+theorem iterStep_dead [Inhabited α] (c : Cfg α δ) (d : Disk α) (base : Nat) (fault : Option Fault)
+    (k : Option Nat) (s : ISt α) (j : Nat) (h : s.io.isSome = true) : iterStep c d base fault k s j = s := by
+  unfold iterStep
+  simp [h]
+
+theorem foldl_iterStep_dead [Inhabited α] (c : Cfg α δ) (d : Disk α) (base : Nat) (fault : Option Fault)
+    (k : Option Nat) (js : List Nat) (s : ISt α) (h : s.io.isSome = true) :
+    js.foldl (iterStep c d base fault k) s = s := by
+  induction js with
+  | nil => rfl
+  | cons j js ih => simp only [List.foldl_cons, iterStep_dead c d base fault k s j h, ih]
+
+theorem iterStep_fault [Inhabited α] (c : Cfg α δ) (d : Disk α) (base : Nat) (f : Fault) (k : Option Nat)
+    (s : ISt α) (j : Nat) :
+    (iterStep c d base (some f) k s j).io = some .readOther ∨
+      iterStep c d base (some f) k s j = iterStep c d base none k s j := by
+  unfold iterStep
+  split
+  · exact Or.inr rfl
+  · simp only
     split
-    · rename_i e he
-      intro h
-      injection h with h
-      exact this (h ▸ he)
-    · simp only [iterOut]
-      split <;> simp
+    · exact Or.inr rfl
+    · split
+      · cases hfa : faultAt (some f) j with
+        | some b => left; rfl
+        | none => right; simp [faultAt]
+      · exact Or.inr rfl
+
+theorem foldl_iterStep_fault [Inhabited α] (c : Cfg α δ) (d : Disk α) (base : Nat) (f : Fault)
+    (k : Option Nat) (js : List Nat) (s : ISt α) :
+    (js.foldl (iterStep c d base (some f) k) s).io = some .readOther ∨
+      js.foldl (iterStep c d base (some f) k) s = js.foldl (iterStep c d base none k) s := by
+  induction js generalizing s with
+  | nil => exact Or.inr rfl
+  | cons j js ih =>
+    simp only [List.foldl_cons]
+    rcases iterStep_fault c d base f k s j with h | h
+    · left
+      rw [foldl_iterStep_dead c d base (some f) k js _ (by rw [h]; rfl)]
+      exact h
+    · rw [h]
+      exact ih _
+
+/-- a transient fault makes the operation answer ReadError — or the operation never gets to the
+    faulty `seek`/`read` and answers (and leaves the object) exactly as without the fault -/
+theorem run_fault [BEq δ] [Inhabited α] (c : Cfg α δ) (d : Disk α) (arg : Option Nat) (f : Fault)
+    (op : Handles.Op) (o : Obj) :
+    (run c d arg (some f) op o).out = .err .readOther ∨
+      ((run c d arg (some f) op o).out = (run c d arg none op o).out ∧
+       (run c d arg (some f) op o).obj = (run c d arg none op o).obj) := by
+  have hiter : ∀ k, (iterRun c d (c.base arg) (some f) k o).1 = (.err .readOther : Out α δ) ∨
+      iterRun c d (c.base arg) (some f) k o = iterRun c d (c.base arg) none k o := by
+    intro k
+    rcases foldl_iterStep_fault c d (c.base arg) f k (List.range c.sizes.length) { obj := o } with h | h
+    · left; simp only [iterRun, h]
+    · right; simp only [iterRun, h]
   cases op with
   | iterFull =>
-    rcases hf with hf | hf
-    · exact hiter none hf
-    · exact absurd rfl hf.1
+    rcases hiter none with h | h
+    · exact Or.inl h
+    · exact Or.inr (by simp only [run, h, and_self])
   | iterAbandon k =>
-    rcases hf with hf | hf
-    · exact hiter (some k) hf
-    · exact absurd rfl (hf.2 k)
+    rcases hiter (some k) with h | h
+    · exact Or.inl h
+    · exact Or.inr (by simp only [run, h, and_self])
   | getPiece i =>
-    have := getPiece_no_osError c hg d (c.base arg) fault i o
-    simp only [run]
-    rcases hr : getPiece c d (c.base arg) fault i o with ⟨x, u⟩
-    rw [hr] at this
-    cases x with
-    | ok p => simp
-    | error e =>
-      simp only
-      intro h
-      injection h with h
-      exact this (by rw [h])
+    rcases getPiece_fault c d (c.base arg) f i o with h | h
+    · left
+      simp only [run]
+      rcases hr : getPiece c d (c.base arg) (some f) i o with ⟨x, u⟩
+      rw [hr] at h
+      simp only at h
+      subst h
+      rfl
+    · exact Or.inr (by simp only [run, h, and_self])
   | getPieceHash i =>
-    have := getPiece_no_osError c hg d (c.base arg) fault i o
-    simp only [run, hashOut]
-    cases hr : (getPiece c d (c.base arg) fault i o).1 with
-    | ok p => simp
-    | error e => cases e <;> simp_all
+    rcases getPiece_fault c d (c.base arg) f i o with h | h
+    · left; simp only [run, h, hashOut]
+    · exact Or.inr (by simp only [run, h, and_self])
   | verifyPiece i =>
-    have := getPiece_no_osError c hg d (c.base arg) fault i o
-    simp only [run]
-    cases Handles.pyIndex c.stored i with
-    | none => simp
-    | some st =>
-      simp only
-      cases hr : (getPiece c d (c.base arg) fault i o).1 with
-      | ok p => simp
-      | error e => cases e <;> simp_all
-  | close => simp [run]
-  | ctxExit => simp [run]
+    rcases getPiece_fault c d (c.base arg) f i o with h | h
+    · simp only [run]
+      cases Handles.pyIndex c.stored i with
+      | none => exact Or.inr ⟨rfl, rfl⟩
+      | some st => left; simp only [h]
+    · exact Or.inr (by simp only [run, h, and_self])
+  | close => exact Or.inr ⟨rfl, rfl⟩
+  | ctxExit => exact Or.inr ⟨rfl, rfl⟩
 
 /-! ### sequential iteration = property C10's model on the disk as it is now -/
 
